@@ -59,6 +59,7 @@ void hor_removed(int id, uint64_t inv);		/* at return of the op that obtained it
 int hor_trav_begin(int key);			/* key < 0: whole table */
 void hor_trav_visit(int t, int id);
 void hor_trav_end(int t);
+void hor_trav_set_interval(int t, uint64_t inv, uint64_t ret);
 void hor_check(unsigned unique_key_mask);	/* post-run */
 int hor_present_count(void);			/* nodes added and not removed (call at quiescence) */
 int hor_is_present(int id);
